@@ -13,6 +13,8 @@
     `t.nodesAt l` its keys, `t.entry l n` = `tree[l][n]`
 -/
 import CTM.Lemmas.Tree
+import CTM.Lemmas.TreeLca
+import CTM.Generated.TreeConsts
 
 namespace CTM.C10
 open CTM CTM.RawTree
@@ -35,7 +37,8 @@ theorem exTree_wf_test : WF exTree :=
 one parent, every listed child exists and no reference cell belongs to two
 leaves"* — for every accepted tree (Python dicts have distinct keys), and every
 pair of adjacent levels `pl > cl`:
- 1. every listed child is a key of the next level;
+ 1. every listed child is a key of the next level; every node of `pl` has at
+    least one child (the `fix:` commit 876e36e);
  2. every node of `cl` is listed exactly once in all the child lists of `pl`
     together (one parent, listed once);
  3. that parent is unique as a node: `∃! p`;
@@ -44,6 +47,7 @@ nor twice in one); the level keys are exactly the hierarchy. -/
 theorem validate_sound (t : RawTree) (d : DictOK t) (hv : t.validate = .ok ()) :
     (∀ pl cl, (pl, cl) ∈ levelPairs t.hierarchy →
       (∀ p, p ∈ t.nodesAt pl → ∀ c, c ∈ t.entry pl p → c ∈ t.nodesAt cl) ∧
+      (∀ p, p ∈ t.nodesAt pl → t.entry pl p ≠ []) ∧
       (∀ c, c ∈ t.nodesAt cl → ((t.level pl).flatMap (·.2)).count c = 1) ∧
       (∀ c, c ∈ t.nodesAt cl → ∃ p, (p ∈ t.nodesAt pl ∧ c ∈ t.entry pl p) ∧
           ∀ p', (p' ∈ t.nodesAt pl ∧ c ∈ t.entry pl p') → p' = p)) ∧
@@ -52,7 +56,8 @@ theorem validate_sound (t : RawTree) (d : DictOK t) (hv : t.validate = .ok ()) :
   have s := strict_of_validate hv
   refine ⟨fun pl cl hpc => ?_, s.rowsNodup, fun k => ⟨s.keysSub k, s.hierSub k⟩⟩
   obtain ⟨i, hi, rfl, rfl⟩ := idx_of_mem_levelPairs hpc
-  refine ⟨fun p hp c hc => s.entry_sub hi hp hc, fun c hc => ?_, fun c hc => ?_⟩
+  refine ⟨fun p hp c hc => s.entry_sub hi hp hc,
+    fun p hp => s.childNe _ _ hpc p _ (mem_level_entry hp), fun c hc => ?_, fun c hc => ?_⟩
   · rw [flatMap_snd_eq_flatMap_entry d]
     have hnd := s.children_nodup hi (d.nodesAt_nodup _) (fun _ h => h)
     rw [hnd.count, if_pos ((s.children_perm_next d hi).mem_iff.2 hc)]
@@ -154,6 +159,20 @@ example : ({ exTree with levels := exTree.levels.map (fun (l, m) =>
     if l = 0 then (l, [(10, [21, 20, 21]), (11, [22])]) else (l, m)) } : RawTree).validate
     = .error .repeatedChild := by rfl
 
+/-- a node above the leaf level with an empty child list -/
+theorem validate_rejects_childless_parent (t : RawTree) {pl cl : Level} {p : Node}
+    (hm : (pl, cl) ∈ levelPairs t.hierarchy) (hp : (p, []) ∈ t.level pl) :
+    ∃ e, t.validate = .error e :=
+  rejects_childless_parent hm hp
+
+example : ({ exTree with levels := exTree.levels.map (fun (l, m) =>
+    if l = 0 then (l, m ++ [(12, [])]) else (l, m)) } : RawTree).validate
+    = .error .noChildren ∧
+  -- emptying a child list orphans the former children: the orphan test fires first
+  ({ exTree with levels := exTree.levels.map (fun (l, m) =>
+    if l = 0 then (l, [(10, [21, 20]), (11, [])]) else (l, m)) } : RawTree).validate
+    = .error .orphan := by decide
+
 /-- a reference row listed twice (in two leaves or twice in one) -/
 theorem validate_rejects_repeated_row (t : RawTree) (hd : ¬ t.allRows.Nodup) :
     ∃ e, t.validate = .error e :=
@@ -231,6 +250,15 @@ theorem leaves_partition_level (t : RawTree) (w : WF t) {l : Level} (hl : l ∈ 
 
 example : (exTree.nodesAt 0).flatMap (exTree.asLeaves 0) = [30, 31, 32, 33] ∧
     exTree.nodesAt 2 = [30, 31, 32, 33] := by decide
+
+/-- Every node of an accepted tree has at least one leaf below it (every node
+above the leaf level has a child), so no `as_leaves` list is empty. -/
+theorem leaves_nonempty (t : RawTree) (w : WF t) {l : Level} (hl : l ∈ t.hierarchy)
+    {n : Node} (hn : n ∈ t.nodesAt l) : t.asLeaves l n ≠ [] := by
+  obtain ⟨i, hi, rfl⟩ := List.mem_iff_getElem.1 hl
+  exact asLeaves_ne_nil (strict_of_validate w.valid) w.hNodup hi hn
+
+example : 11 ∈ exTree.nodesAt 0 ∧ exTree.asLeaves 0 11 = [33] := by decide
 
 /-! ### parents and children -/
 
@@ -393,6 +421,23 @@ theorem pairs_leaf_level (t : RawTree) (l : Level) (n : Node) (hl : t.leafLevel 
   leafPairs_leaf n hl
 
 example : exTree.leafLevel = some 2 ∧ exTree.leafPairs (some (2, 31)) = [] := by decide
+
+/-- Taken over all parents of `all_parents` (the root and every node above the
+leaf level), every unordered pair of distinct leaves is listed exactly once:
+under their lowest common ancestor and under no other parent. -/
+theorem pairs_cover_once (t : RawTree) (w : WF t) {a b : Node}
+    (ha : a ∈ t.nodesAt (t.hierarchy.getLast w.hNe))
+    (hb : b ∈ t.nodesAt (t.hierarchy.getLast w.hNe)) (hab : a < b) :
+    ∃ P, P ∈ t.allParents ∧ (a, b) ∈ t.leafPairs P ∧
+      ∀ Q, Q ∈ t.allParents → (a, b) ∈ t.leafPairs Q → Q = P := by
+  rw [getLast_eq_leafIdx w] at ha hb
+  obtain ⟨P, hP, hmem⟩ := pairs_cover w ha hb hab
+  exact ⟨P, hP, hmem, fun Q hQ h2 => pairs_cover_unique w ha hb hQ hP h2 hmem⟩
+
+example : exTree.allParents = [none, some (0, 10), some (0, 11), some (1, 21), some (1, 20),
+      some (1, 22)] ∧
+    exTree.allParents.map exTree.leafPairs =
+      [[(30, 33), (31, 33), (32, 33)], [(30, 31), (30, 32)], [], [(31, 32)], [], []] := by decide
 
 /-! ### flatten, drop_level -/
 
@@ -633,5 +678,21 @@ example : (fromRecordsRaw [0, 1, 2] [[10, 20, 30], [10, 21, 31], [11, 22, 32], [
     fromRecordsRaw [0, 2] [[10, 30], [10, 31], [11, 32], [10, 33]]
       = ⟨true, [0, 2], [(0, [(10, [30, 31, 33]), (11, [32])]),
               (2, [(30, [0]), (31, [1]), (32, [2]), (33, [3])])], true⟩ := by decide
+
+/-! ### constants re-extracted from the current source (translator) -/
+
+/-- Generated obligation: `lean/CTM/Generated/TreeConsts.lean` is rewritten by
+`./check C10` from the current source of `validate_taxonomy_tree`.  The
+translator recognised the function, the keys it ignores are exactly the three
+the model and the harness set aside, and both child-list tests (repeated
+child, no children) are present — so `validate` (= `validateWith true`) is the
+validator of the source as it stands. -/
+theorem generated_validator_constants :
+    Generated.TreeConsts.recognised = true ∧
+    Generated.TreeConsts.ignorableKeys = ["hierarchy_mapper", "metadata", "name_mapper"] ∧
+    Generated.TreeConsts.repeatedChildTest = true ∧
+    Generated.TreeConsts.noChildrenTest = true ∧
+    ∀ t : RawTree, t.validate = t.validateWith Generated.TreeConsts.strictChildren := by
+  refine ⟨by decide, by decide, by decide, by decide, fun t => rfl⟩
 
 end CTM.C10
